@@ -177,7 +177,13 @@ def mkCfg (name trace recover domain icpt corsFlag origins allowH exposed maxAge
     if corsFlag = "1" then Cors.sanitize (decL origins) (decL allowH) (decL exposed) (maxAge.toInt?.getD 0) (decBool cred)
     else some {}
   cors.map (fun c => { name := decB name, trace := decBool trace, ic := decIcpt icpt, cors := c,
-                       urlDomain := decB domain, recover := decBool recover })
+                       urlDomain := decB domain, recover := recover ≠ "0",
+                       recActs :=
+                         -- "1": the harness's own function; s/w/l/g<status>: a bundled option (http.Error)
+                         if recover = "0" ∨ recover = "1" then defaultRecActs
+                         else
+                           let code := ((recover.drop 1).toString.toNat?).getD 500
+                           httpErrorActs code (statusTextLen code) })
 
 def decActs (tok : String) : List Act :=
   if tok = "%-" then []
@@ -332,7 +338,7 @@ def step (st : St) (line : String) : St × String :=
   | ["group", gid, recover, trace, domain, icpt, corsFlag, origins, allowH, exposed, maxAge, cred] =>
     match gid.toNat?, mkCfg "g" trace recover domain icpt corsFlag origins allowH exposed maxAge cred with
     | some id, some cfg =>
-      ({ st with groups := update st.groups id { recover := cfg.recover }, groupCfg := update st.groupCfg id cfg }, "ok")
+      ({ st with groups := update st.groups id { recover := cfg.recover, recActs := cfg.recActs }, groupCfg := update st.groupCfg id cfg }, "ok")
     | some _, none => (st, "reject:bad-option")
     | _, _ => (st, "bad-op")
   | ["group-add", gid, rid, mexpr] =>
